@@ -138,6 +138,15 @@ macro_rules! inds {
             pub fn ser(&self) -> Vec<u8> {
                 match self { $( Ind::$name(i) => bincode::serialize(i).unwrap(), )* }
             }
+            /// `Clone::clone_from` of the INNER indicator (the second method of the Clone trait: the copy is
+            /// written into an instance that already exists and may have been used, with the same or with
+            /// different parameters).  Different indicator types: plain assignment of a clone.
+            pub fn clone_from_ind(&mut self, src: &Ind) {
+                match (self, src) {
+                    $( (Ind::$name(d), Ind::$name(s)) => Clone::clone_from(d, s), )*
+                    (d, s) => *d = s.clone(),
+                }
+            }
             pub fn de(name: &str, bytes: &[u8]) -> Option<Ind> {
                 match name { $( stringify!($name) => bincode::deserialize::<$name>(bytes).ok().map(Ind::$name), )* _ => None }
             }
